@@ -169,7 +169,7 @@ def _isinst(eng, v, nm, n):
         if nm == "set":
             return isinstance(ty, TSet)
         if nm == "slice":
-            return isinstance(ty, TRec) and ty.name == "slice"
+            return getattr(ty, "name", "") == "slice"
         if isinstance(ty, TObj):
             return ty.name == nm or nm in eng.c.globals.get("__bases__", {}).get(ty.name, ())
         if ty is TNone:
@@ -227,13 +227,11 @@ def b_bool(eng, args, kw, n, st):
 
 
 def b_slice(eng, args, kw, n, st):
-    ty = TRec("slice", {"start": TInt, "stop": TInt}, ["start", "stop"])
+    from .types import TSLICE
+
     if len(args) != 2:
         raise OutOfSubset(n, "slice() with arity != 2")
-    r = eng.fresh(st, ty, "slice")
-    st.assume(ty.field_fn("start")(r.t) == args[0].t)
-    st.assume(ty.field_fn("stop")(r.t) == args[1].t)
-    return r
+    return V(TSLICE, TSLICE.mk(args[0].t, args[1].t))
 
 
 def b_min(eng, args, kw, n, st):
